@@ -77,6 +77,10 @@ CHECKS = {
             "A logical index (explicit files with explicit parents plus 1-3 directory objects at depth 0-2 that contain sub-directories) is realised lazily (one unloaded entry per directory object + ObjectStorage on a real cache) and explicitly, in memory or SQLite-backed via DataIndex.open(); a seeded ORDER of 4-20 accesses - lookup, membership, iteritems(prefix, shallow), ls, info, diff(L, E, hash_only), DataFileSystem ls/info/find/open, view(filter).iteritems over prefix-closed filters (first and second iteration), load() twice - decides at which moment each directory gets loaded. Every answer of the lazy index must equal the explicit index's and the model's; the explicit index is checked against the model too, so a wrong model is a harness error, not an alarm.",
             "Entries are compared on (key, isdir, hash value); the loaded flag and sizes are not observables. longest_prefix is not part of the statement and is not compared. No fault dimension (a failing load is C09's subject).",
             "deterministic simulation: seeded access-order histories on lazy vs explicit realisations vs reference model", "DESIGN.md §5 C17"),
+    "C18": ("exploration",
+            "Seeded scenarios: an index of 1-3 outputs (lazily loaded directory objects or single files, shared contents) with a storage placement - one root prefix, one prefix per output over caches C1,C2 x remotes R1,R2, or a root prefix plus a nested prefix overriding one role (per-role fallback) - remotes being generic stores on the local fs or SimRemoteFS, with or without remote index; objects start in the cache the reference longest-prefix resolution designates. collect(push) -> push round 1 under upload_error / ack_lost / remote_down -> clean round 2 -> caches emptied -> fresh index -> collect -> fetch round 1 (optionally get_error / remote_down) -> clean round -> compare/apply from the cache. Oracle: each remote, then each cache, holds at least the objects of the entries that resolve to it and nothing unreachable, every object intact; pushed+failed (fetched+failed) equals the objects that had to move; checkout equals the data.",
+            "No storage prefix lies strictly inside a directory-object entry. With nested prefixes the enclosing prefix's store may legitimately also receive the nested entries (collection walks each prefix's subtree), so set equality is relaxed to min <= actual <= max there and the count identity is only required for non-nested placements (and, under faults, when no object is shared by two (remote, cache) groups).",
+            "deterministic simulation: seeded placement x fault-round scenarios vs reference longest-prefix resolution model", "DESIGN.md §5 C18"),
 }
 
 NA_FIXED = {
